@@ -30,6 +30,15 @@ CAPCODE = {'route_refresh': 2, 'cisco_route_refresh': 128, 'enhanced_route_refre
 
 
 def mk_sim(cfg):
+    if cfg.get('wildcard'):
+        # local address 0.0.0.0: the agent takes its BGP identifier from the first connection's local address; later
+        # connections leave through another interface
+        sim = Sim(local_addr='0.0.0.0', local_as=cfg['local_as'], remote_as=cfg['remote_as'], hold_time=cfg['hold'], idle_hold_time=5,
+                  connect_retry_time=60, four_bytes_as=cfg['four_bytes_as'], route_refresh=cfg['route_refresh'],
+                  cisco_route_refresh=cfg['cisco_route_refresh'], enhanced_route_refresh=cfg['enhanced_route_refresh'],
+                  add_path=cfg['add_path'], afi_safi=tuple(cfg['afi_safi']))
+        sim.reactor.egress_hosts = ['10.0.0.1', '10.9.9.1', '172.16.5.4']
+        return sim
     return Sim(local_as=cfg['local_as'], remote_as=cfg['remote_as'], hold_time=cfg['hold'], idle_hold_time=5,
                connect_retry_time=60, four_bytes_as=cfg['four_bytes_as'], route_refresh=cfg['route_refresh'],
                cisco_route_refresh=cfg['cisco_route_refresh'], enhanced_route_refresh=cfg['enhanced_route_refresh'],
@@ -311,7 +320,8 @@ cfg_strategy = st.fixed_dictionaries({
     'local_as': as_val, 'remote_as': as_val, 'hold': st.sampled_from([0, 3, 30, 180, 65535]),
     'four_bytes_as': st.booleans(), 'route_refresh': st.booleans(), 'cisco_route_refresh': st.booleans(),
     'enhanced_route_refresh': st.booleans(), 'add_path': st.sampled_from([None, None, 'ipv4_send', 'ipv4_receive', 'ipv4_both']),
-    'afi_safi': st.lists(st.sampled_from(FAMILIES), min_size=1, max_size=4, unique=True)})
+    'afi_safi': st.lists(st.sampled_from(FAMILIES), min_size=1, max_size=4, unique=True),
+    'wildcard': st.sampled_from([False, False, False, True])})
 peer_spec = st.fixed_dictionaries({
     'version': st.sampled_from([4, 4, 4, 4, 3, 5]),
     'as': st.sampled_from(['match', 'match', 'match', 'other', 'cap-mismatch', 'trans-nocap']),
